@@ -482,6 +482,13 @@ func init() {
 				}
 				return o
 			}
+			smallDec := func() []numv {
+				var o []numv
+				for _, d := range []string{"0.5", "-0.5", "1.0", "0.1", "-2.5", "3.0", "0.25", "100.5", "-0.001", "1.5"} {
+					o = append(o, decNum(d))
+				}
+				return o
+			}
 			subs := []core.Sub{
 				c08Pairs("int-x-int", "all ordered pairs of the Integer grid x 6 operators", ints, ints),
 				c08Pairs("dec-x-dec", "all ordered pairs of the Decimal pool x 6 operators", decPool, decPool),
@@ -489,6 +496,8 @@ func init() {
 				c08Pairs("int-x-wide", "boundary Integers x decimals around 2^32, 2^63, 2^64, 2^65, 3*2^64, 2^128", bnd, widePool),
 				c08Pairs("wide-x-dec", "word-size decimals x Decimal pool", widePool, decPool),
 				c08Pairs("dec-x-int", "Decimal pool x boundary Integers", decPool, bnd),
+				c08Pairs("grid-x-smalldec", "every Integer of the grid x 10 short decimals (the promotion of each Integer to Decimal)", ints, smallDec),
+				c08Pairs("smalldec-x-grid", "10 short decimals x every Integer of the grid", smallDec, ints),
 				c08Pairs("fhir-x-sys", "FHIR integer/positiveInt/unsignedInt/decimal elements x (boundary Integers + Decimal pool)", fhirNums, func() []numv { return append(bnd(), decPool()...) }),
 				c08Pairs("sys-x-fhir", "boundary Integers x FHIR elements", bnd, fhirNums),
 			}
